@@ -369,6 +369,50 @@ func R14(p *core.Prog) *core.Result {
 	}
 	_ = sp
 
+	// (b2) MAP-KEY-CONVERT: reflect.Value.SetMapIndex panics unless the key value is assignable to the map's key
+	// type. The unfolder only has a plain string; for map types with a named string key type
+	// (map[Label]T) the key must be converted to m.Type().Key() first.
+	{
+		n := 0
+		for _, f := range p.ModFuncs() {
+			pk := core.FuncPkg(f)
+			if pk == nil || pk.Name() != "gotype" {
+				continue
+			}
+			for _, b := range f.Blocks {
+				for _, in := range b.Instrs {
+					c, ok := in.(*ssa.Call)
+					if !ok {
+						continue
+					}
+					sc := c.Common().StaticCallee()
+					if sc == nil || sc.Name() != "SetMapIndex" || funcPkgPath(sc) != "reflect" || len(c.Common().Args) < 2 {
+						continue
+					}
+					n++
+					conv := false
+					if kc, ok := c.Common().Args[1].(*ssa.Call); ok {
+						if ks := kc.Common().StaticCallee(); ks != nil && ks.Name() == "Convert" && funcPkgPath(ks) == "reflect" {
+							// converted to the key type of a map type
+							if len(kc.Common().Args) == 2 {
+								if tc, ok := kc.Common().Args[1].(*ssa.Call); ok && tc.Common().IsInvoke() && tc.Common().Method.Name() == "Key" {
+									conv = true
+								}
+							}
+						}
+					}
+					pos := p.Pos(c.Pos())
+					if conv {
+						r.Ok(".MAP-KEY-CONVERT", pos, core.FuncKey(f)+": the key is converted to the map's key type before SetMapIndex")
+					} else {
+						r.Fail(".MAP-KEY-CONVERT", core.FuncKey(f)+"|SetMapIndex", pos, core.FuncKey(f)+" calls SetMapIndex with a key value that was not converted to the map's key type: for a target like map[Label]T (type Label string) reflect panics ('value of type string is not assignable to type Label')", "")
+					}
+				}
+			}
+		}
+		r.Floor("set_map_index_sites", n, 2)
+	}
+
 	// (c) RECURSION-GUARD
 	for _, root := range []string{"getReflectFold", "lookupReflUnfolder"} {
 		rf := p.LookupFunc("gotype", root)
